@@ -165,11 +165,21 @@ func c17Exec(raw json.RawMessage) Result {
 			cur = []byte{}
 		}
 	}
+	var scratch []byte
 	for _, st := range op.Steps {
 		switch {
 		case st.W != nil:
 			p := unhx(*st.W)
-			n, err := w.Write(append([]byte(nil), p...))
+			// the caller owns p again as soon as Write returns (io.Writer: "Write must not retain p"): every chunk is handed
+			// over in ONE reused scratch slice which is scribbled over afterwards, as io.Copy and friends do
+			if cap(scratch) < len(p) {
+				scratch = make([]byte, 0, 2*len(p)+16)
+			}
+			chunk := append(scratch[:0], p...)
+			n, err := w.Write(chunk)
+			for i := range chunk {
+				chunk[i] = '#'
+			}
 			rets = append(rets, n)
 			errs = append(errs, err != nil)
 			if n != len(p) || err != nil {
